@@ -171,7 +171,24 @@ static bool edges_overlap(const Path64& a, const Path64& b) {
 }
 // A path that touches itself at a vertex decomposes into loops; true iff it has loops of both orientations (a
 // "figure eight" whose lobes are one outer and one hole), which no placement in the tree can nest correctly.
-static bool has_lobes_of_opposite_orientation(const Path64& p) {
+static bool has_lobes_of_opposite_orientation(const Path64& p0) {
+  // a vertex lying in the interior of another edge of the same path is a touch point too: split that edge there first
+  Path64 p;
+  for (size_t i = 0; i < p0.size(); ++i) {
+    const Point64& u = p0[i]; const Point64& v = p0[(i + 1) % p0.size()];
+    p.push_back(u);
+    std::vector<Point64> mid;
+    for (const Point64& w : p0) if (!(w == u) && !(w == v) && cross(u, v, w) == 0 && on_segment(u, v, w)) mid.push_back(w);
+    // ... and so is a proper crossing of two axis-parallel edges (an exact lattice point)
+    for (size_t j = 0; j < p0.size(); ++j) {
+      const Point64& a = p0[j]; const Point64& b = p0[(j + 1) % p0.size()];
+      if (j == i || !proper_cross(u, v, a, b)) continue;
+      if (u.y == v.y && a.x == b.x) mid.push_back(Point64(a.x, u.y));
+      else if (u.x == v.x && a.y == b.y) mid.push_back(Point64(u.x, a.y));
+    }
+    std::sort(mid.begin(), mid.end(), [&](const Point64& a, const Point64& b) { return dist2(u, a) < dist2(u, b); });
+    for (size_t k = 0; k < mid.size(); ++k) if (k == 0 || !(mid[k] == mid[k - 1])) p.push_back(mid[k]);
+  }
   std::vector<Point64> st; bool pos = false, neg = false;
   auto close_loop = [&](size_t from) {
     Path64 loop(st.begin() + (long)from, st.end());
@@ -275,7 +292,11 @@ static bool check_nesting(Ctx& ctx, const Case& c, const Flat& t, bool rev, bool
       return true;
     }
     if (nd.a2 == 0) {
-      ctx.violation("C04.hole_parity", { "zero_area_node", which, cls }, c, std::string(which) + " node " + std::to_string(k) + " at depth " + std::to_string(nd.level) + " has zero area (" + std::to_string(nd.poly.size()) + " vertices): neither positive nor negative orientation");
+      std::vector<std::string> ztags = { "zero_area_node", which, cls };
+      // classifier: a figure-eight whose lobes have opposite orientation and cancel exactly (the ProcessHorzJoins defect
+      // recorded for C03.G1 and for C04.sibling_disjoint) - or something else
+      if (has_lobes_of_opposite_orientation(nd.poly)) ztags.push_back("zero_area_node_is_figure_eight_of_opposite_lobes@" + cls);
+      ctx.violation("C04.hole_parity", ztags, c, std::string(which) + " node " + std::to_string(k) + " at depth " + std::to_string(nd.level) + " has zero area (" + std::to_string(nd.poly.size()) + " vertices): neither positive nor negative orientation: " + [&]() { std::string q; for (auto& pt : nd.poly) q += "(" + std::to_string(pt.x) + "," + std::to_string(pt.y) + ")"; return q; }());
       return true;
     }
     bool negative = nd.a2 < 0;
@@ -951,5 +972,5 @@ void vf_begin(Ctx& ctx) { ctx.max_witness_per_claim = 100000; }
 
 void vf_end(Ctx& ctx) {
   ctx.count("gp_candidates_tried", g_gc.tries);
-  ctx.count("gp_candidates_rejected", g_gc.rejected);
+  ctx.count("gp_candidates_rejected", g_gc.rejected); ctx.count("gp_flat_dense_scanline_scenes", g_gc.flat); ctx.count("gp_scenes_with_crossing_a_hair_past_a_scanline", g_gc.tie);
 }
